@@ -66,10 +66,13 @@ func init() {
 						sibling = &certA
 					}
 					o := serveOpts{proto: proto, plugins: ps, certField: fieldA}
+					if mode == "nocert-plaintext" { // a plugin that ignores PLUGIN_CLIENT_CERT: no certificate field, no TLS
+						o.certField = ""
+					}
 					if proto != "netrpc" {
 						o.proto = "grpc"
 					}
-					if mode != "plaintext" {
+					if mode != "plaintext" && mode != "nocert-plaintext" {
 						o.tls = &tls.Config{Certificates: []tls.Certificate{serveCert}, ClientAuth: tls.RequireAndVerifyClientCert, ClientCAs: pool, RootCAs: pool, MinVersion: tls.VersionTLS12, ServerName: "localhost"}
 					}
 					servePlugin(o)(r)
@@ -150,7 +153,7 @@ func init() {
 		Instances: func(tier string) []explore.Params {
 			var out []explore.Params
 			for _, proto := range []string{"netrpc", "grpc"} {
-				for _, m := range []string{"legit", "other-cert", "plaintext", "sibling-cert"} {
+				for _, m := range []string{"legit", "other-cert", "plaintext", "sibling-cert", "nocert-plaintext"} {
 					if proto == "netrpc" {
 						// crypto/tls holds its (real) handshake mutex across a blocking read while yamux's
 						// second goroutine waits for that mutex: not durably blocked, the bubble stalls.
